@@ -130,6 +130,7 @@ func verifVFSPut(name string, content []byte) {
 	}
 }
 func verifVFSDel(name string) { verifos.Remove(name) }
+func verifTask(name string, notification bool) {}
 `
 
 type replayCase struct {
@@ -349,7 +350,11 @@ func (r *replayer) overlayFor(entryRel string, overrides [][2]string) (string, e
 
 // binFor builds (once) the native replay binary for the package of an entry.
 func (r *replayer) binFor(entryRel string, overrides [][2]string) (string, error) {
-	key := entryRel + fmt.Sprint(overrides)
+	return r.binForOpt(entryRel, overrides, false)
+}
+
+func (r *replayer) binForOpt(entryRel string, overrides [][2]string, race bool) (string, error) {
+	key := entryRel + fmt.Sprint(overrides) + fmt.Sprint(race)
 	if b, ok := r.bins[key]; ok {
 		return b, nil
 	}
@@ -359,7 +364,12 @@ func (r *replayer) binFor(entryRel string, overrides [][2]string) (string, error
 		return "", err
 	}
 	bin := filepath.Join(r.tmp, fmt.Sprintf("replay%d.test", len(r.bins)))
-	cmd := exec.Command("go", "test", "-c", "-vet=off", "-overlay", ov, "-o", bin, "./"+entryRel)
+	args := []string{"test", "-c", "-vet=off", "-overlay", ov, "-o", bin}
+	if race {
+		args = append(args, "-race")
+	}
+	args = append(args, "./"+entryRel)
+	cmd := exec.Command("go", args...)
 	cmd.Dir = r.p.repo
 	cmd.Env = goEnv()
 	out, err := cmd.CombinedOutput()
@@ -420,6 +430,8 @@ func confirms(v *violation, res *replayResult) bool {
 		return has("VERIF-ASSERT-FAILED " + v.Class + "|" + strings.TrimPrefix(v.Msg, "assert failed: "))
 	case "panic":
 		return res.ExitErr && strings.Contains(res.Output, "panic:") && !strings.Contains(res.Output, "stack overflow")
+	case "race":
+		return strings.Contains(res.Output, "WARNING: DATA RACE") || strings.Contains(res.Output, "concurrent map")
 	case "depth":
 		return strings.Contains(res.Output, "stack overflow") || strings.Contains(res.Output, "goroutine stack exceeds") || res.TimedOut
 	case "steps":
